@@ -66,7 +66,7 @@ def generate(rng, idx, tier, variant):
         while prog['lags'] + prog['leads'] + 1 > n:
             n += 1
         sp['n'] = n
-        model = {'kind': 'parser', 'script': prog['script'], 'names': prog['names'], 'endo': prog['endo'], 'lags': prog['lags'], 'leads': prog['leads'], 'init': scripts.gen_data(rng, prog, n)}
+        model = {'kind': 'parser', 'script': prog['script'], 'names': prog['names'], 'endo': prog['endo'], 'lags': prog['lags'], 'leads': prog['leads'], 'declared': prog['declared'], 'init': scripts.gen_data(rng, prog, n)}
         names = list(prog['names'])
     else:
         model = S.gen_spec(rng, 'solver', tier)
@@ -166,12 +166,14 @@ def generate(rng, idx, tier, variant):
     return {'spec': spec, 'ops': ops}
 
 
-def build_classes(fsic, spec):
+def build_classes(fsic, spec, ctx=None):
     from fsic.extensions import AliasMixin
 
     model = spec['model']
     if model['kind'] == 'parser':
-        base = fsic.build_model(fsic.parse_model(model['script']))
+        base = probes.build_parser_class(fsic, model, ctx)
+        if base is None:
+            raise S.BuildFailed()
     else:
         base = probes.make_scripted(fsic, model)
     if spec.get('tracer'):
@@ -301,7 +303,11 @@ def execute(schedule, ctx):
     fsic = import_fsic()
     spec = schedule['spec']
     chk = lambda sig, ok, detail=None: ctx.check('C18', sig, ok, detail)  # noqa: E731
-    base, mixed = build_classes(fsic, spec)
+    try:
+        base, mixed = build_classes(fsic, spec, ctx)
+    except S.BuildFailed:
+        ctx.log('build-failed')
+        return
     al = dict(map(tuple, spec['aliases']))  # declaration order is part of the configuration: kept as a pair list
     model = spec['model']
     names = list(model['names']) if model['kind'] == 'parser' else model['endo'] + model['exo']
